@@ -187,6 +187,9 @@ func buildParserModel(p *Prog) (*parserModel, string) {
 		return alts, true
 	}
 	m.Hooks["strings.Split"] = m.Hooks["strings.SplitN"]
+	m.Hooks["strings.Cut"] = func(m *Machine, st *State, call *ssa.CallCommon, args []Val) ([]Val, bool) {
+		return []Val{&TupleV{E: []Val{AbsStr{}, AbsStr{}, true}}, &TupleV{E: []Val{cloneVal(args[0]), "", false}}}, true
+	}
 	pm := &parserModel{alpha: alpha, events: map[string]string{}, ops: map[string]bool{}, stuck: map[string]int{}}
 	pm.forward = m.Curs.forward
 	pm.curOther = m.Curs.other
